@@ -136,7 +136,7 @@ impl Prop for DtOffset {
         Ok(Case { i, off, off2, local_now })
     }
     fn check(c: &Case, cx: &mut Cx) -> Verdict {
-        if !c.i.valid() || c.off.abs() > 86_399 || c.off2.abs() > 86_399 {
+        if !c.i.valid() || c.off.unsigned_abs() > 86_399 || c.off2.unsigned_abs() > 86_399 {
             return Verdict::Skip("malformed case");
         }
         if c.i.day < cal::MIN_DAY + 1 || c.i.day > cal::MAX_DAY - 1 {
@@ -286,7 +286,7 @@ impl Prop for TimeOffset {
     }
     fn check(c: &TimeCase, cx: &mut Cx) -> Verdict {
         const DAY: i128 = 86_400_000_000_000;
-        if c.ns as i128 >= DAY || c.off.abs() > 86_399 || c.off2.abs() > 86_399 {
+        if c.ns as i128 >= DAY || c.off.unsigned_abs() > 86_399 || c.off2.unsigned_abs() > 86_399 {
             return Verdict::Skip("malformed case");
         }
         let o = Offset::Fixed(c.off);
